@@ -40,6 +40,11 @@ func add(rootGoitPath, path string, index *store.Index) error {
 	cleanedRelPath := strings.ReplaceAll(relPath, `\`, "/") // replace backslash with slash
 	byteRelPath := []byte(cleanedRelPath)
 
+	// files found beneath a directory argument are excluded in the same way as an argument itself
+	if client.Ignore.IsIncluded(cleanedRelPath, index) {
+		return nil
+	}
+
 	// update index
 	isUpdated, err := index.Update(rootGoitPath, object.Hash, byteRelPath)
 	if err != nil {
